@@ -316,6 +316,34 @@ class Gen(object):
             # a name clash between a common and an automatic style (C11's territory)
             autos.append(named(autos[0], common_names[0]))
         r.shuffle(autos)
+        same = None
+        if r.random() < 0.25 and cls in ('Text', 'TextMaster'):
+            # two automatic styles of DIFFERENT kinds under one name (names are unique per kind only), both used; the
+            # later one is the only referrer of a further automatic style
+            DS = u'urn:oasis:names:tc:opendocument:xmlns:datastyle:1.0'
+            kind = r.choice(['list', 'number'])
+            nm = r.choice([u'X1', u'L9', u'N7'])
+            only = nm + u'only'
+            first = ('E', L.STYLENS, u'style', [(L.STYLENS, u'name', nm), (L.STYLENS, u'family', u'paragraph')], [])
+            lonely = ('E', L.STYLENS, u'style', [(L.STYLENS, u'name', only), (L.STYLENS, u'family', u'text')],
+                      [('E', L.STYLENS, u'text-properties', [(L.FONS, u'font-weight', u'bold')], [])])
+            if kind == 'list':
+                second = ('E', L.TEXTNS, u'list-style', [(L.STYLENS, u'name', nm)],
+                          [('E', L.TEXTNS, u'list-level-style-number', [(L.TEXTNS, u'level', u'1'), (L.TEXTNS, u'style-name', only)], [])])
+                use = ('E', L.TEXTNS, u'list', [(L.TEXTNS, u'style-name', nm)],
+                       [('E', L.TEXTNS, u'list-item', [], [('E', L.TEXTNS, u'p', [(L.TEXTNS, u'style-name', nm)], [('T', u'item')])])])
+            else:
+                second = ('E', DS, u'number-style', [(L.STYLENS, u'name', nm)],
+                          [('E', DS, u'text', [], [('T', u'#')]), ('E', L.STYLENS, u'map', [(L.STYLENS, u'condition', u'value()>=0'), (L.STYLENS, u'apply-style-name', only)], [])])
+                lonely = ('E', DS, u'number-style', [(L.STYLENS, u'name', only)], [('E', DS, u'number', [], [])])
+                cell = ('E', L.STYLENS, u'style', [(L.STYLENS, u'name', nm + u'c'), (L.STYLENS, u'family', u'table-cell'), (L.STYLENS, u'data-style-name', nm)], [])
+                autos.append(cell)
+                use = ('E', L.TABLENS, u'table', [(L.TABLENS, u'name', u'same')], [('E', L.TABLENS, u'table-column', [], []),
+                       ('E', L.TABLENS, u'table-row', [], [('E', L.TABLENS, u'table-cell', [(L.TABLENS, u'style-name', nm + u'c')],
+                        [('E', L.TEXTNS, u'p', [(L.TEXTNS, u'style-name', nm)], [('T', u'1')])])])])
+            pair = [first, second] if r.random() < 0.5 else [second, first]
+            autos = autos[:2] + [pair[0]] + autos[2:] + [pair[1], lonely]
+            same = use
         rec['auto'] = autos
         # body
         size = [40 if self.tier == 'quick' else 80]
@@ -334,6 +362,8 @@ class Gen(object):
             k = self.element(cq, r.choice([2, 3, 4]), ctx, size)
             if k is not None:
                 kids.append(k)
+        if same is not None:
+            kids.append(same)
         rec['body'] = kids
         # master styles, fonts, settings, meta
         rec['master'] = [k for k in [self.element((L.STYLENS, 'master-page'), 3, ctx, [15]) for _ in range(r.choice([0, 1, 2]))] if k]
@@ -778,7 +808,12 @@ def run_recipe(V, rec, tmpdir):
     if printed.strip():
         rep.add('load-prints', printed[:200])
     s2 = snapshot(d2)
-    d2._loaded_sections = [L.loaded_sections(d2)] + [L.loaded_sections(o) for o in d2.childobjects]
+    def allsecs(doc, acc):
+        acc[doc.folder[1:] + u'/' if doc.folder else u''] = L.loaded_sections(doc)
+        for o in doc.childobjects:
+            allsecs(o, acc)
+        return acc
+    d2._loaded_sections = allsecs(d2, {})
     compare_docs(rep, s1, s2, p1, u'')
     raw2 = save_bytes(d2)
     compare_generations(rep, p1, L.read_pkg(raw2), s1)
@@ -841,10 +876,8 @@ def run(chk, replay=None):
             correspond_save(chk, drv, s1, p1, key)
             for k, sub in enumerate(s1['objects']):
                 correspond_save(chk, drv, sub, p1, dict(key, object=k + 1), u'Object %d/' % (k + 1))
-            L.correspond_document(chk, drv, p1, u'', d2._loaded_sections[0], key, rng=chk.rng if i % 2 else None)
-            for k, sub in enumerate(d2.childobjects):
-                L.correspond_document(chk, drv, p1, u'Object %d/' % (k + 1), d2._loaded_sections[k + 1], dict(key, object=k + 1),
-                                      rng=chk.rng if i % 2 else None)
+            for folder, real in sorted(d2._loaded_sections.items()):
+                L.correspond_document(chk, drv, p1, folder, real, dict(key, folder=folder), rng=chk.rng if i % 2 else None)
             nel = len(list(L.elems(forest_el('b', s1['body']))))
             chk.count('class:' + rec['class'])
             chk.count('objects', len(rec['objects'])); chk.count('pictures', len(rec['pictures']))
